@@ -45,13 +45,13 @@ type event struct {
 }
 
 type runObs struct {
-	rets    []bool
-	sOK     bool
-	sMsg    string
-	sErr    bool
-	final   []test.Result
-	blames  []int // -1 none
-	trace   []event
+	rets     []bool
+	sOK      bool
+	sMsg     string
+	sErr     bool
+	final    []test.Result
+	blames   []int // -1 none
+	trace    []event
 	panicked string
 }
 
@@ -244,7 +244,7 @@ func noDup(v []int) bool {
 // runGraphCase executes one graph case, registers it for the correspondence
 // check and applies the oracle.
 func runGraphCase(c *gal.Ctx, kind string, g gcase, hw hwapi.LowLevelHardwareInterfaces) {
-	var bad []string     // unknown failures
+	var bad []string      // unknown failures
 	var badKnown []string // failures of the class of the known finding
 	fresh := true
 	for _, t := range g.Tests {
@@ -381,7 +381,7 @@ func runGraphCase(c *gal.Ctx, kind string, g gcase, hw hwapi.LowLevelHardwareInt
 	case len(bad) > 0:
 		c.OracleFail(idx, bad[0], site, g)
 	case len(badKnown) > 0:
-		c.OracleFailKnown(idx, findingRerun, badKnown[0], site, g)
+		reportKnownFailure(c, idx, findingRerun, badKnown[0], site, g)
 		c.Count("known_rerun_cases")
 	default:
 		c.OracleOK()
